@@ -1,0 +1,631 @@
+//go:build verif
+
+// Machine-checked contracts for property C20 (errors reach the caller with
+// code, message and application flag intact). Comment-only file read by govc;
+// it adds no declarations to the package. Run:
+//     govc -props C20
+// Contracts of verif_contracts.go / verif_contracts_c13.go that also count for
+// C20 (tagged there): errorMessage.read/write, callRes.read/write,
+// GetSystemErrorCode, Frame.write (error frames are encoded whole or not at
+// all), (*errorMessage).ID/messageType, messageExchange(Set).forwardPeerFrame,
+// Connection.SendSystemError / protocolError / handleCallReq (one error-frame
+// attempt per refused call: errAttempts), newLazyError, lazyError.Code; and
+// WriteLen16String in typed/verif_contracts.go.
+// Where this file names a function that already has a contract there, the two
+// contracts are CONJOINED by the engine: only the extra clauses are given here.
+//
+// Shape of the argument
+//   E1 sending    Connection.SendSystemError builds an error frame with the
+//                 error's code and message, or fails (never truncates);
+//                 InboundCallResponse.SendSystemError forwards the handler's error.
+//   E2 receiving  recvPeerFrameOfType turns an error frame for the exchange's id
+//                 into an errorMessage with the frame's code and message;
+//                 recvMessage / fragmentingReader.recvAndParseNextFragment turn
+//                 that into a SystemError with the same code (and message: see
+//                 AsSystemError, KNOWN DEFECT).
+//   E3 app flag   SetApplicationError sets the flag; ApplicationError() <=> response code 1.
+//   E4 local      GetContextError (deadline -> ErrTimeout, cancel -> ErrRequestCancelled),
+//                 logConnectionError / connectionError (connection loss -> network error).
+//   E5 protocol   handleError: code 0xFF tears the connection down; handleFrameRelay:
+//                 relay connections hand error frames to the relayer.
+//   E6 relay      timeoutRelayItem, failRelayItem, getDestination.
+//
+// Hypotheses that appear as antecedents (the engine does not know the initial
+// values of package variables): ErrVarsOK(), RelayVarsOK().
+// Still `trusted` (ASSUMED, not verified), each with its reason: CurrentSpan,
+// Peer.getConnectionRelay, Relayer.Relay. Ghost fields are updated by iface /
+// funcfield contracts and by `defines` clauses (ghost assignments at the
+// function's exit: sysErr*, connErrs/connErrCode, closeReq, lastRecv).
+// Because a `modifies all/allbut` callee also forgets the contents of boxed
+// SystemError values, facts that must survive such a call are stated through
+// the pure function GetSystemErrorCode(err) rather than err.(SystemError).code.
+//
+// Mutations that must be caught (re-checked after integration):
+//   SendSystemError writes ErrCodeUnexpected        -> SendSystemError#atcall(queued-frame-carries-code)
+//   recvPeerFrameOfType returns errUnexpectedFrameType for error frames
+//                                                     -> recvPeerFrameOfType#ensures(error-frame-is-reported)
+//   checkFrame compares with ==                       -> checkFrame#ensures
+//   recvPeerFrame skips checkFrame                    -> recvPeerFrame#ensures(only-frames-for-this-exchange)
+//   handleError tests ErrCodeNetwork                  -> handleError#ensures(protocol-error-frame-closes-the-connection)
+//   GetContextError swaps the two errors              -> GetContextError#ensures
+//   SetApplicationError stores false                  -> SetApplicationError#ensures(flag-set)
+//   recvAndParseNextFragment drops doneReading        -> #ensures(system-error-is-reported-to-the-call)
+//   timeoutRelayItem tests !isOriginator              -> timeoutRelayItem#ensures(only-the-originating-side-reports)
+//   handleFrameRelay no longer relays error frames    -> handleFrameRelay#atcall(error-frames-bypass-the-non-relay-dispatcher)
+//   logConnectionError starts from ErrCodeUnexpected  -> logConnectionError#ensures(connection-loss-is-network-error)
+//   getDestination wraps with ErrCodeDeclined         -> getDestination#ensures(connect-failure-is-network-error)
+//   InboundCallResponse.SendSystemError sends id 0    -> #ensures(sends-this-error-for-this-call)
+//   Frame.write ignores msg.write's error             -> Frame.write#ensures(over-long-error-message-rejected)
+
+package tchannel
+
+// ===========================================================================
+// errors.go / messages.go -- system errors
+// ===========================================================================
+
+// (err != io.EOF: a new value, never the end-of-argument sentinel of the
+// fragment reader)
+//@ func NewSystemError(code SystemErrCode, msg string, args ...interface{}) (err error)
+//@   ensures err != nil && istype(err, SystemError) && err.(SystemError).code == code
+//@   ensures GetSystemErrorCode(err) == code
+//@   ensures err != io.EOF
+//@   property C20
+
+//@ func NewWrappedSystemError(code SystemErrCode, wrapped error) (err error)
+//@   nilable wrapped
+//@   ensures istype(wrapped, SystemError) ==> istype(err, SystemError) && err.(SystemError).code == wrapped.(SystemError).code && err.(SystemError).msg == wrapped.(SystemError).msg
+//@   ensures !istype(wrapped, SystemError) ==> istype(err, SystemError) && err.(SystemError).code == code && err.(SystemError).wrapped == wrapped
+//@   ensures !istype(wrapped, SystemError) ==> GetSystemErrorCode(err) == code
+//@   ensures istype(wrapped, SystemError) ==> GetSystemErrorCode(err) == GetSystemErrorCode(wrapped)
+//@   property C20
+
+//@ func (se SystemError) Code() (c SystemErrCode)
+//@   ensures c == se.code
+//@   property C20
+
+//@ func (se SystemError) Message() (m string)
+//@   ensures m == se.msg
+//@   property C20
+
+//@ func GetContextError(err error) (out error)
+//@   nilable err
+//@   effect nonblocking
+//@   ensures err == context.DeadlineExceeded ==> out == ErrTimeout
+//@   ensures err == context.Canceled ==> out == ErrRequestCancelled
+//@   ensures err != context.DeadlineExceeded && err != context.Canceled ==> out == err
+//@   label deadline-to-timeout
+//@   ensures ErrVarsOK() && err == context.DeadlineExceeded ==> GetSystemErrorCode(out) == ErrCodeTimeout
+//@   label cancel-to-cancelled
+//@   ensures ErrVarsOK() && err == context.Canceled ==> GetSystemErrorCode(out) == ErrCodeCancelled
+//@   property C20 C14
+
+// ErrVarsOK: the documented error variables still hold the values their
+// initialisers gave them (the engine treats package variables as immutable
+// but does not know their initial values; see report).
+//@ pred ErrVarsOK() := istype(ErrTimeout, SystemError) && GetSystemErrorCode(ErrTimeout) == ErrCodeTimeout &&
+//@        istype(ErrRequestCancelled, SystemError) && GetSystemErrorCode(ErrRequestCancelled) == ErrCodeCancelled &&
+//@        istype(ErrChannelClosed, SystemError) && GetSystemErrorCode(ErrChannelClosed) == ErrCodeDeclined
+
+//@ func GetSystemErrorMessage(err error) (m string)
+//@   pure
+//@   requires err != nil
+//@   ensures istype(err, SystemError) ==> m == err.(SystemError).msg
+//@   property C20
+
+// KNOWN DEFECT (message-intact fails until the library is fixed): NewSystemError
+// passes the message to fmt.Sprintf as a FORMAT, so "50% busy" arrives as
+// "50%!b(MISSING)usy". The fix builds SystemError{code, msg: m.message} directly.
+//@ func (m errorMessage) AsSystemError() (err error)
+//@   label code-intact
+//@   ensures istype(err, SystemError) && err.(SystemError).code == m.errCode
+//@   ensures GetSystemErrorCode(err) == m.errCode
+//@   label message-intact
+//@   ensures err.(SystemError).msg == m.message
+//@   ensures err != io.EOF
+//@   property C20
+
+//@ func (m *cancelMessage) AsSystemError() (err error)
+//@   label code-is-cancelled
+//@   ensures istype(err, SystemError) && err.(SystemError).code == ErrCodeCancelled
+//@   label message-intact
+//@   ensures err.(SystemError).msg == m.message
+//@   property C20
+
+// ===========================================================================
+// Sending: Connection.SendSystemError (E1)
+// ===========================================================================
+
+// ErrFrame*(f, ...): f is an error frame for message id carrying exactly this
+// code and message (protocol: code:1 tracing:25 message~2).
+//@ pred ErrFrameHdr(f *Frame, id uint32, msglen int) := f.Header.ID == id && f.Header.messageType == messageTypeError && f.Header.size == 16 + 28 + msglen
+//@ pred ErrFrameCode(f *Frame, code SystemErrCode) := u8at(f.Payload, 0) == code
+//@ pred ErrFrameMsg(f *Frame, msg string) := be16(f.Payload, 26) == len(msg) && bytestr(f.Payload[28:28+len(msg)]) == msg
+
+// E1. (conjoined with the accounting contract in verif_contracts.go: one
+// attempt per call, errAttempts(c)). The frame put on the connection's send
+// queue is an error frame for id carrying GetSystemErrorCode(err) and
+// GetSystemErrorMessage(err) (checked at the send itself); a message that
+// cannot be encoded makes the call fail instead of being truncated.
+// sysErrID/sysErrCode/sysErrMsg(c) name id, code and message of the latest
+// attempt on c (ghost assignment), for callers that ignore the result.
+//@ ghostfield sysErrID
+//@ ghostfield sysErrCode
+//@ ghostfield sysErrMsg string
+//@ func (c *Connection) SendSystemError(id uint32, span Span, err error) (sendErr error)
+//@   requires err != nil
+//@   defines sysErrID(c) == id && sysErrCode(c) == GetSystemErrorCode(err) && sysErrMsg(c) == GetSystemErrorMessage(err)
+//@   label over-long-message-is-an-error
+//@   ensures len(GetSystemErrorMessage(err)) > 65491 ==> sendErr != nil
+//@   label queued-frame-is-error-frame-for-id
+//@   atcall withStateRLock ErrFrameHdr(frame, id, len(GetSystemErrorMessage(err)))
+//@   label queued-frame-carries-code
+//@   atcall withStateRLock ErrFrameCode(frame, GetSystemErrorCode(err))
+//@   label queued-frame-carries-message
+//@   atcall withStateRLock ErrFrameMsg(frame, GetSystemErrorMessage(err))
+//@   property C20
+
+// ===========================================================================
+// mex.go -- the caller's side of an exchange
+// ===========================================================================
+
+// A successful Notify stores exactly err; a refused one (already notified)
+// leaves the stored error alone: the first error sticks.
+//@ func (e *errNotifier) Notify(err error) (out error)
+//@   requires err != nil
+//@   modifies e.err
+//@   label stores-the-error
+//@   ensures out == nil ==> e.err == err
+//@   label first-error-sticks
+//@   ensures out != nil ==> e.err == old(e.err)
+//@   property C20
+
+//@ func (e *errNotifier) checkErr() (out error)
+//@   ensures out == nil || out == e.err
+//@   property C20
+
+//@ pred MexOK(mex *messageExchange) := mex.ctx != nil && mex.mexset != nil && mex.mexset.log != nil && mex.framePool != nil
+
+//@ func (mex *messageExchange) checkFrame(frame *Frame) (err error)
+//@   requires MexOK(mex) && own(frame) == 1
+//@   ensures err == nil <==> frame.Header.ID == mex.msgID
+//@   property C20
+
+// Channel invariant of an exchange's receive queue: only well-formed full-size
+// frames whose header passed Frame.ReadBody (size >= 16) are queued, and the
+// receiver becomes their holder (produces own). Checked at the sends in
+// messageExchange.forwardPeerFrame, assumed at the receives in recvPeerFrame.
+// (FrameShape = FrameFull without the ownership token.)
+//@ pred FrameShape(f *Frame) := f != nil && f.buffer != nil && len(f.buffer) >= 16 &&
+//@        arr(f.Payload) == arr(f.buffer) && off(f.Payload) == off(f.buffer) + 16 && len(f.Payload) == len(f.buffer) - 16 &&
+//@        arr(f.headerBuffer) == arr(f.buffer) && off(f.headerBuffer) == off(f.buffer) && len(f.headerBuffer) == 16 && len(f.Payload) == 65519
+//@ chanfield messageExchange.recvCh(v *Frame)
+//@   requires FrameShape(v) && v.Header.size >= 16
+//@   produces own(v)
+
+// recvPeerFrame: a frame is returned only if it carries this exchange's id.
+// lastRecv(mex)/frameAt name the frame returned (ghost assignment; 0 = none).
+// `modifies all`: on a cancelled context the exchange set's onCancel hook runs
+// (it sends a cancel frame and may tear the connection down); when a frame is
+// returned nothing of the exchange changed. No ownership token the caller
+// holds is lost; the returned frame was in flight (held by nobody here) before.
+// `nosafety`, and the facts are stated for f != nil rather than err == nil:
+// that the three error returns never yield (nil, nil) rests on the Context
+// contract (Err() != nil once Done() is closed), on the errNotifier protocol
+// (err is stored before c is closed) and on the package's error variables
+// being non-nil -- none of which the engine knows.
+//@ ghostfield lastRecv
+//@ ghost func frameAt(r int) *Frame
+//@ func (mex *messageExchange) recvPeerFrame() (f *Frame, err error)
+//@   nosafety
+//@   requires MexOK(mex)
+//@   modifies all
+//@   defines (f != nil ==> lastRecv(mex) == ref(f) && frameAt(ref(f)) == f) && (f == nil ==> lastRecv(mex) == 0)
+//@   defines f != nil ==> old(own(f)) == 0
+//@   ensures err != nil ==> f == nil
+//@   label only-frames-for-this-exchange
+//@   ensures f != nil ==> err == nil && f.Header.ID == mex.msgID
+//@   label returned-frame-is-well-formed
+//@   ensures f != nil ==> FrameFull(f) && f.Header.size >= 16
+//@   ensures f != nil ==> MexOK(mex) && mex.msgID == old(mex.msgID) && mex.framePool == old(mex.framePool) && mex.mexset == old(mex.mexset)
+//@   label no-token-is-lost
+//@   ensures forall k int :: old(own(k)) == 1 ==> own(k) == 1
+//@   property C20
+
+// An error frame for this exchange is returned as an errorMessage error that
+// carries the frame's id, code byte and message (E2, first half).
+// (`nosafety`: see recvPeerFrame -- err == nil means a frame was returned.)
+// ErrFrameOK(f): the declared payload of error frame f holds a complete error
+// message (code:1 tracing:25 message~2).
+//@ pred ErrPayloadOK(p []byte) := len(p) >= 28 && len(p) >= 28 + be16(p, 26)
+//@ pred ErrFrameOK(f *Frame) := f.Header.size >= 16 + 28 && f.Header.size >= 16 + 28 + be16(f.Payload, 26)
+//@ pred GotErrFrame(mex *messageExchange) := lastRecv(mex) != 0 && frameAt(lastRecv(mex)).Header.messageType == messageTypeError &&
+//@        ErrFrameOK(frameAt(lastRecv(mex)))
+//@ func (mex *messageExchange) recvPeerFrameOfType(msgType messageType) (f *Frame, err error)
+//@   nosafety
+//@   requires MexOK(mex)
+//@   modifies all
+//@   ensures err != nil ==> f == nil
+//@   label right-type-is-returned
+//@   ensures err == nil ==> FrameFull(f) && f.Header.size >= 16 && f.Header.messageType == msgType && f.Header.ID == mex.msgID &&
+//@             lastRecv(mex) == ref(f) && frameAt(ref(f)) == f
+//@   label error-frame-is-reported
+//@   ensures msgType != messageTypeError && GotErrFrame(mex) ==> istype(err, errorMessage)
+//@   label errorMessage-has-this-id
+//@   ensures msgType != messageTypeError && GotErrFrame(mex) ==> err.(errorMessage).id == old(mex.msgID)
+//@   label code-intact
+//@   ensures msgType != messageTypeError && GotErrFrame(mex) ==> err.(errorMessage).errCode == u8at(frameAt(lastRecv(mex)).Payload, 0)
+//@   label message-intact
+//@   ensures msgType != messageTypeError && GotErrFrame(mex) ==>
+//@             err.(errorMessage).message == bytestr(frameAt(lastRecv(mex)).Payload[28:28+be16(frameAt(lastRecv(mex)).Payload, 26)])
+//@   property C20
+
+// The message interface: clauses added to the contracts in verif_contracts.go
+// (conjoined). mtype(m) names the (constant) type code of a message value. The
+// facts about *errorMessage are the contracts proved on (*errorMessage).write /
+// ID / messageType (verif_contracts.go, verif_contracts_c13.go); an interface
+// contract takes precedence over static dispatch in the engine, so they have
+// to be repeated here.
+//@ ghost func mtype(m message) int
+//@ iface message.messageType() (t messageType)
+//@   ensures t == mtype(self)
+//@ iface message.write(w *typed.WriteBuffer) (err error)
+//@   ensures err == w.err
+//@   ensures istype(self, *errorMessage) && len(self.(*errorMessage).message) > 65535 ==> err != nil
+//@   ensures istype(self, *errorMessage) && old(w.err) == nil && len(old(w.remaining)) < 28 + len(self.(*errorMessage).message) ==> err != nil
+//@   ensures istype(self, *errorMessage) && old(w.err) == nil && len(self.(*errorMessage).message) <= 65535 &&
+//@           len(old(w.remaining)) >= 28 + len(self.(*errorMessage).message) ==> err == nil &&
+//@             u8at(old(w.remaining), 0) == self.(*errorMessage).errCode && be16(old(w.remaining), 26) == len(self.(*errorMessage).message) &&
+//@             bytestr(old(w.remaining)[28:28+len(self.(*errorMessage).message)]) == self.(*errorMessage).message &&
+//@             w.remaining == old(w.remaining)[28+len(self.(*errorMessage).message):]
+
+// recvMessage (ping / init responses): an error frame received instead of the
+// expected message is returned as a SystemError with the frame's code (E2)
+// (and, once AsSystemError is fixed, the frame's message).
+// `nosafety`: after the wait (`modifies all`: the cancel hook may run) the
+// engine no longer knows that c.opts.FramePool is non-nil.
+//@ func (c *Connection) recvMessage(ctx context.Context, msg message, mex *messageExchange) (err error)
+//@   nosafety
+//@   requires MexOK(mex) && msg != nil && c.opts.FramePool != nil
+//@   modifies all
+//@   label error-frame-becomes-system-error-with-its-code
+//@   ensures mtype(msg) != messageTypeError && GotErrFrame(mex) ==>
+//@             istype(err, SystemError) && err.(SystemError).code == u8at(frameAt(lastRecv(mex)).Payload, 0)
+//@   label error-frame-becomes-system-error-with-its-message
+//@   ensures mtype(msg) != messageTypeError && GotErrFrame(mex) ==>
+//@             err.(SystemError).msg == bytestr(frameAt(lastRecv(mex)).Payload[28:28+be16(frameAt(lastRecv(mex)).Payload, 26)])
+//@   property C20
+
+// ===========================================================================
+// fragmenting_reader.go -- error frame while reading call arguments (E2)
+// ===========================================================================
+
+// The receiver (the call / response object) hands over the next fragment or an
+// error; an error frame is handed over as an errorMessage value (see
+// recvPeerFrameOfType). Clauses added to the receiver contracts of
+// verif_contracts.go (conjoined): fragErr* record what the receiver returned,
+// doneCalls/doneCode what doneReading was told.
+//@ ghostfield fragErrIsMsg
+//@ ghostfield fragErrCode
+//@ ghostfield fragErrMsg string
+//@ ghostfield doneCalls
+//@ ghostfield doneCode
+//@ iface fragmentReceiver.recvNextFragment(intial bool) (f *readableFragment, err error)
+//@   ensures err == nil ==> fragErrIsMsg(self) == 0
+//@   ensures err != nil ==> (fragErrIsMsg(self) == 1 <==> istype(err, errorMessage))
+//@   ensures istype(err, errorMessage) ==> fragErrCode(self) == err.(errorMessage).errCode && fragErrMsg(self) == err.(errorMessage).message
+//@ iface fragmentReceiver.doneReading(unexpectedErr error)
+//@   ensures doneCalls(self) == old(doneCalls(self)) + 1 && doneCode(self) == GetSystemErrorCode(unexpectedErr)
+
+// (conjoined with the contract in verif_contracts.go) An error frame met while
+// reading arguments becomes the reader's sticky error: a SystemError with the
+// frame's code (and message, once AsSystemError is fixed), and it is reported
+// to the call exactly once.
+//@ func (r *fragmentingReader) recvAndParseNextFragment(initial bool) (err error)
+//@   label error-frame-becomes-system-error-with-its-code
+//@   ensures old(r.err) == nil && fragErrIsMsg(r.receiver) == 1 ==> istype(err, SystemError) && err.(SystemError).code == fragErrCode(r.receiver) && r.err == err
+//@   label error-frame-becomes-system-error-with-its-message
+//@   ensures old(r.err) == nil && fragErrIsMsg(r.receiver) == 1 ==> err.(SystemError).msg == fragErrMsg(r.receiver)
+//@   label system-error-is-reported-to-the-call
+//@   ensures old(r.err) == nil && fragErrIsMsg(r.receiver) == 1 ==> doneCalls(r.receiver) == old(doneCalls(r.receiver)) + 1 && doneCode(r.receiver) == fragErrCode(r.receiver)
+//@   label other-errors-are-passed-through
+//@   ensures old(r.err) == nil && fragErrIsMsg(r.receiver) != 1 && err != nil ==> doneCalls(r.receiver) == old(doneCalls(r.receiver))
+//@   loop 0 invariant fragErrIsMsg(r.receiver) == 0 && doneCalls(r.receiver) == old(doneCalls(r.receiver))
+//@   property C20
+
+// ===========================================================================
+// connection.go -- connection-level errors (E4, E5)
+// ===========================================================================
+
+// Loss of the connection is reported to the calls in flight as a network
+// error, unless the cause already is a system error (then its code is kept).
+// (the *-pure clauses say the same through GetSystemErrorCode, which callers
+// can still use after a `modifies all` callee)
+//@ func (c *Connection) logConnectionError(site string, err error) (out error)
+//@   requires c.log != nil && err != nil
+//@   label connection-loss-is-network-error
+//@   ensures !istype(err, SystemError) ==> istype(out, SystemError) && out.(SystemError).code == ErrCodeNetwork && out.(SystemError).wrapped == err
+//@   label system-error-cause-keeps-its-code
+//@   ensures istype(err, SystemError) ==> istype(out, SystemError) && out.(SystemError).code == err.(SystemError).code && out.(SystemError).msg == err.(SystemError).msg
+//@   label connection-loss-is-network-error-pure
+//@   ensures !istype(err, SystemError) ==> GetSystemErrorCode(out) == ErrCodeNetwork
+//@   label system-error-cause-keeps-its-code-pure
+//@   ensures istype(err, SystemError) ==> GetSystemErrorCode(out) == GetSystemErrorCode(err)
+//@   ensures istype(out, SystemError)
+//@   property C20
+
+// closeReq(c) counts the invocations of c.close() (same ghost as in the C19
+// file; ghost assignment conjoined with the contract in verif_contracts.go).
+//@ ghostfield connErrs
+//@ ghostfield connErrCode
+//@ func (c *Connection) close(fields ...LogField) (err error)
+//@   defines closeReq(c) == old(closeReq(c)) + 1
+
+// connectionError: the connection is closed exactly once (c.close() is
+// invoked; whether the state moves is the C07/C19 story) and the error handed
+// to the exchanges and returned is logConnectionError's: a network error
+// unless the cause already was a system error. The call is recorded as a
+// ghost event: connErrs(c) counts the calls, connErrCode(c) is the code of the
+// error that was reported.
+//@ pred ConnErrOK(c *Connection) := c.log != nil && (c.healthCheckDone != nil ==> c.healthCheckCtx != nil && c.healthCheckQuit != nil)
+//@ func (c *Connection) connectionError(site string, err error) (out error)
+//@   nosafety
+//@   requires ConnErrOK(c) && err != nil
+//@   modifies allbut errAttempts
+//@   defines connErrs(c) == old(connErrs(c)) + 1 && connErrCode(c) == GetSystemErrorCode(out)
+//@   label closes-the-connection-once
+//@   ensures closeReq(c) == old(closeReq(c)) + 1
+//@   label connection-loss-is-network-error
+//@   ensures !istype(err, SystemError) ==> GetSystemErrorCode(out) == ErrCodeNetwork
+//@   label system-error-cause-keeps-its-code
+//@   ensures istype(err, SystemError) ==> GetSystemErrorCode(out) == GetSystemErrorCode(err)
+//@   ensures istype(out, SystemError)
+//@   property C20
+
+// E5: outside relays, an error frame with code 0xFF (protocol error) tears
+// down the connection it arrived on (connectionError is invoked once, with a
+// protocol-error SystemError, and the connection is closed) and the frame is
+// handed back for release, i.e. not left with an exchange; any other
+// well-formed error frame is not fatal for the connection.
+// (frame contents are those at entry: connectionError may change anything)
+//@ pred MexSetFull(s *messageExchangeSet) := MexSetOK(s) && MexSetInv(s) && (forall k uint32 :: has(s.exchanges, k) ==> s.exchanges[k].ctx != nil)
+//@ func (c *Connection) handleError(frame *Frame) (release bool)
+//@   requires FrameFull(frame) && frame.Header.size >= 16
+//@   requires ConnErrOK(c) && MexSetFull(c.outbound)
+//@   modifies allbut errAttempts
+//@   label protocol-error-frame-closes-the-connection
+//@   ensures old(ErrFrameOK(frame) && u8at(frame.Payload, 0) == 255) ==>
+//@             release && closeReq(c) == old(closeReq(c)) + 1 && connErrs(c) == old(connErrs(c)) + 1 && connErrCode(c) == ErrCodeProtocol
+//@   label other-error-frames-are-not-fatal
+//@   ensures old(ErrFrameOK(frame) && u8at(frame.Payload, 0) != 255) ==> connErrs(c) == old(connErrs(c)) && closeReq(c) == old(closeReq(c))
+//@   label malformed-error-frame-closes-the-connection
+//@   ensures !old(ErrFrameOK(frame)) ==> release && connErrs(c) == old(connErrs(c)) + 1 && closeReq(c) == old(closeReq(c)) + 1
+//@   property C20
+
+// ===========================================================================
+// inbound.go / outbound.go -- the application-error flag (E3)
+// ===========================================================================
+
+// Before any argument was written the handler can flag the response as an
+// application error; the flag is then what the first response fragment's code
+// byte is taken from (closure messageForFragment in handleCallReq, not
+// verifiable: see report) and callRes.write/read carry it as byte 0.
+// (`modifies all`: a too-late call fails the writer, which shuts the exchange
+// down and runs the connection's hooks.)
+//@ func (response *InboundCallResponse) SetApplicationError() (out error)
+//@   requires response.log != nil && response.mex != nil && MexSetOK(response.mex.mexset)
+//@   modifies all
+//@   label flag-set
+//@   ensures old(response.state) <= reqResWriterPreArg2 ==> out == nil && response.applicationError
+//@   label too-late-is-an-error
+//@   ensures old(response.state) > reqResWriterPreArg2 ==> out != nil
+//@   property C20
+
+//@ func (response *OutboundCallResponse) ApplicationError() (b bool)
+//@   label flag-is-response-code-1
+//@   ensures b <==> response.callRes.ResponseCode == 1
+//@   property C20
+
+// ASSUMED (trusted): the engine rejects CurrentSpan ("outside subset: merge of
+// different address kinds": it returns either a fresh span or &emptySpan). Only
+// the tracing span of the error frame depends on it.
+//@ func CurrentSpan(ctx context.Context) (s *Span)
+//@   trusted
+//@   modifies nothing
+//@   ensures s != nil
+//@   property C20
+
+//@ funcfield InboundCallResponse.timeNow() (t time.Time)
+//@   modifies nothing
+// (InboundCallResponse.cancel, the context's cancel function, and doneSending: C14 file)
+
+// A handler's system error is sent as an error frame for the call's id with
+// the error's code and message (unless the response already failed): exactly
+// one attempt on the call's connection (errAttempts), for this call's id, with
+// this error's code and message (sysErr*; that the frame built and queued
+// carries them is Connection.SendSystemError's contract).
+//@ pred RespOK(response *InboundCallResponse) := response.conn != nil && response.mex != nil && response.call != nil && response.timeNow != nil &&
+//@        response.statsReporter != nil && response.cancel != nil && response.mex.ctx != nil && MexSetOK(response.mex.mexset) &&
+//@        (response.call.previousFragment != nil ==> response.call.previousFragment.onDone != nil)
+//@ func (response *InboundCallResponse) SendSystemError(err error) (out error)
+//@   requires err != nil && RespOK(response)
+//@   modifies all
+//@   label failed-response-sends-nothing
+//@   ensures old(response.err) != nil ==> out == old(response.err) && errAttempts(old(response.conn)) == old(errAttempts(response.conn))
+//@   label sends-this-error-for-this-call
+//@   ensures old(response.err) == nil ==> errAttempts(old(response.conn)) == old(errAttempts(response.conn)) + 1 &&
+//@             sysErrID(old(response.conn)) == response.mex.msgID && sysErrCode(old(response.conn)) == GetSystemErrorCode(err) &&
+//@             sysErrMsg(old(response.conn)) == GetSystemErrorMessage(err)
+//@   label response-is-complete
+//@   ensures old(response.err) == nil ==> response.systemError && response.state == reqResWriterComplete
+//@   ensures response.conn == old(response.conn) && response.mex == old(response.mex)
+//@   label over-long-message-is-an-error
+//@   ensures old(response.err) == nil && len(GetSystemErrorMessage(err)) > 65491 ==> out != nil
+//@   property C20
+
+// ===========================================================================
+// relay.go -- errors a relay originates (E6)
+// ===========================================================================
+
+// The relay item table (`nosafety` here and in the functions that use it:
+// that the table and its logger exist and that every item carries its
+// RelayCall -- set by addRelayItem, the only writer of new items -- are
+// table-wide invariants over map contents which no keep-list can carry across
+// a call; the contracts below are about which error is reported, not about
+// panics).
+//@ func (r *relayItems) Entomb(id uint32, deleteAfter time.Duration) (item relayItem, ok bool)
+//@   nosafety
+//@   modifies allbut Connection, Relayer, errAttempts, sysErrID, sysErrCode, sysErrMsg, lookupHit
+//@   property C20
+//@ func (r *relayItems) Get(id uint32, stopTimeout bool) (item relayItem, stopped bool, found bool)
+//@   nosafety
+//@   modifies allbut Connection, Relayer, relayItems, lazyCallReq, Frame, own, bytes, errAttempts, sysErrID, sysErrCode, sysErrMsg
+//@   ensures !stopTimeout ==> !stopped
+// (membership at the time of the lookup -- the item map is monitor-guarded --
+// is stated in the relay file: found == has(r.items, id))
+//@   property C20
+// decrementPending lets the connection re-check its exchanges (it may move on
+// in its close sequence); no error frame is sent.
+//@ func (r *Relayer) decrementPending()
+//@   nosafety
+//@   modifies allbut errAttempts, closeReq, connErrs, connErrCode, sysErrID, sysErrCode, sysErrMsg, lookupHit
+//@   property C20
+// Relay statistics callbacks (user code, T4): no effect on tchannel objects.
+//@ iface RelayCall.Failed(reason string)
+//@   modifies nothing
+//@ iface RelayCall.End()
+//@   modifies nothing
+
+// Sent(c) / NotSent(c): exactly one / no attempt to send an error frame on c
+// during the call (errAttempts: see Connection.SendSystemError).
+//@ pred Sent(c *Connection) := errAttempts(c) == old(errAttempts(c)) + 1
+//@ pred NotSent(c *Connection) := errAttempts(c) == old(errAttempts(c))
+//@ pred SentFor(c *Connection, id uint32, err error) := sysErrID(c) == id && sysErrCode(c) == GetSystemErrorCode(err) && sysErrMsg(c) == GetSystemErrorMessage(err)
+
+// A relayed call that times out at the relay is answered, on the connection
+// the call came from, with ErrTimeout (code timeout) for the call's id; the
+// timeout of the receiving half sends nothing.
+//@ func (r *Relayer) timeoutRelayItem(items *relayItems, id uint32, isOriginator bool)
+//@   nosafety
+//@   requires r.conn != nil
+//@   modifies all
+//@   label only-the-originating-side-reports
+//@   ensures !isOriginator ==> NotSent(old(r.conn))
+//@   label at-most-one-error
+//@   ensures NotSent(old(r.conn)) || Sent(old(r.conn))
+//@   label relay-timeout-is-ErrTimeout
+//@   ensures !NotSent(old(r.conn)) ==> SentFor(old(r.conn), id, ErrTimeout)
+//@   label timeout-code
+//@   ensures ErrVarsOK() && !NotSent(old(r.conn)) ==> sysErrCode(old(r.conn)) == ErrCodeTimeout
+//@   property C20
+
+// Failing a relayed call reports the failure to the originator (as a
+// fmt.Errorf error, i.e. not a SystemError, hence with code "unexpected": not
+// stated, the engine's model of fmt.Errorf yields an error of arbitrary type)
+// -- except when the originator itself is too slow, where nothing is sent.
+//@ func (r *Relayer) failRelayItem(items *relayItems, id uint32, reason string, err error)
+//@   nilable err
+//@   nosafety
+//@   modifies all
+//@   label slow-source-gets-no-error-frame
+//@   ensures reason == _relayErrorSourceConnSlow ==> NotSent(old(r.conn))
+//@   label failure-is-reported-for-this-id
+//@   ensures !NotSent(old(r.conn)) ==> Sent(old(r.conn)) && sysErrID(old(r.conn)) == id
+//@   label unknown-item-sends-nothing
+//@   ensures lookupHit(items) == 0 ==> NotSent(old(r.conn))
+//@   property C20
+
+// destOf(call) / destOK(call): the peer the relay host selected and whether it
+// selected one (Destination() is a getter: a function of the call object).
+//@ ghost func destOf(call RelayCall) *Peer
+//@ ghost func destOK(call RelayCall) bool
+//@ iface RelayCall.Destination() (peer *Peer, ok bool)
+//@   modifies nothing
+//@   ensures peer == destOf(self) && (ok <==> destOK(self)) && (ok ==> peer != nil)
+// ASSUMED (trusted): connecting to the selected peer (dials, handshakes,
+// goroutines: outside the engine's subset). It leaves the relayer, the call req
+// frame and the error accounting alone; connFailed/connFailSys(p) record
+// whether it failed and whether the failure already was a SystemError.
+//@ ghostfield connFailed
+//@ ghostfield connFailSys
+//@ func (p *Peer) getConnectionRelay(callTimeout time.Duration, relayMaxConnTimeout time.Duration) (c *Connection, err error)
+//@   trusted
+//@   modifies allbut Relayer, relayItems, lazyCallReq, Frame, own, bytes, errAttempts, sysErrID, sysErrCode, sysErrMsg, lookupHit
+//@   ensures (err != nil <==> connFailed(p) == 1) && (err == nil ==> c != nil) && (connFailSys(p) == 1 <==> istype(err, SystemError))
+//@   ensures err == nil ==> c != nil && RelayerOK(c.relay) && ValidRelayMax(c.relay.maxTimeout)
+//@   effect bounded
+//@   property C03 C14 C20
+
+// RelayVarsOK: the relay's error variables hold their initial values.
+//@ pred RelayVarsOK() := istype(errBadRelayHost, SystemError) && GetSystemErrorCode(errBadRelayHost) == ErrCodeDeclined
+
+//@ func (r *Relayer) getDestination(f *lazyCallReq, call RelayCall) (conn *Connection, ok bool, err error)
+//@   nosafety
+//@   requires r.conn != nil && LCR(f) && call != nil && r.outbound != nil && r.logger != nil
+//@   modifies allbut Relayer, relayItems
+// (lookupHit(items): the answer of the most recent relayItems.Get on that table,
+// see the relay file; the table is monitor-guarded, so "present at entry" says
+// nothing about the time of the lookup)
+//@   label at-most-one-error
+//@   ensures NotSent(r.conn) || (Sent(r.conn) && sysErrID(r.conn) == old(f.Header.ID))
+//@   label success-sends-nothing
+//@   ensures ok ==> conn != nil && err == nil && NotSent(r.conn)
+//@   label duplicate-id-sends-nothing
+//@   ensures lookupHit(r.outbound) == 1 ==> err != nil && !ok && NotSent(r.conn)
+//@   label bad-relay-host-is-reported-as-errBadRelayHost
+//@   ensures lookupHit(r.outbound) == 0 && !destOK(call) ==> err != nil && Sent(r.conn) && SentFor(r.conn, old(f.Header.ID), errBadRelayHost)
+//@   label bad-relay-host-is-declined
+//@   ensures RelayVarsOK() && lookupHit(r.outbound) == 0 && !destOK(call) ==> sysErrCode(r.conn) == ErrCodeDeclined
+//@   label connect-failure-is-network-error
+//@   ensures !ok && err == nil ==> destOK(call) && connFailed(destOf(call)) == 1 && Sent(r.conn) && sysErrID(r.conn) == old(f.Header.ID) &&
+//@             (connFailSys(destOf(call)) == 0 ==> sysErrCode(r.conn) == ErrCodeNetwork)
+//@   property C20
+
+// ===========================================================================
+// connection.go -- relay connections hand error frames to the relayer (E5)
+// ===========================================================================
+
+// ASSUMED (trusted): the relayer's frame entry point is not analysed here
+// (Relayer.handleCallReq / handleNonCallReq: timers, dials, goroutines);
+// relayed(r) counts the frames handed to the relayer.
+//@ ghostfield relayed
+//@ func (r *Relayer) Relay(f *Frame) (shouldRelease bool, err error)
+//@   trusted
+//@   modifies all
+//@   ensures relayed(r) == old(relayed(r)) + 1
+// (every error return leaves the frame with the caller)
+//@   ensures err != nil ==> own(f) == 1
+//@   property C20
+
+// The non-relay dispatcher: error frames go to handleError (E5, above).
+// DispatchOK: what the other handlers it dispatches to need of the connection.
+//@ pred DispatchOK(c *Connection) := c.statsReporter != nil && c.opts.FramePool != nil && c.baseContext != nil
+//@ func (c *Connection) handleFrameNoRelay(frame *Frame) (release bool)
+//@   nosafety
+//@   requires FrameFull(frame) && frame.Header.size >= 16
+//@   requires ConnErrOK(c) && MexSetFull(c.outbound) && MexSetFull(c.inbound) && DispatchOK(c)
+//@   modifies all
+//@   label only-error-frames-reach-handleError
+//@   atcall handleError frame.Header.messageType == messageTypeError
+//@   property C20
+
+// On a relay connection an error frame (of any code, including protocol
+// errors) goes to the relayer and never to the non-relay dispatcher, whose
+// handleError would tear the connection down.
+//@ func (c *Connection) handleFrameRelay(frame *Frame) (release bool)
+//@   nosafety
+//@   requires c.relay != nil && c.log != nil && FrameFull(frame) && frame.Header.size >= 16
+//@   requires ConnErrOK(c) && MexSetFull(c.outbound) && MexSetFull(c.inbound) && DispatchOK(c)
+//@   modifies all
+//@   label error-frames-go-to-the-relayer
+//@   ensures old(frame.Header.messageType) == messageTypeError ==> relayed(old(c.relay)) == old(relayed(c.relay)) + 1
+//@   label error-frames-bypass-the-non-relay-dispatcher
+//@   atcall handleFrameNoRelay frame.Header.messageType != messageTypeError
+//@   property C20
+
+// Safety only: printing an error. (Forwarding a frame to a waiting caller:
+// messageExchange(Set).forwardPeerFrame, under contract in verif_contracts.go,
+// tagged C20 there.)
+//@ func (se SystemError) Error() (s string)
+//@   property C20
+//@ func (m errorMessage) Error() (s string)
+//@   property C20
